@@ -2,6 +2,9 @@
 import containers, observer
 TUS = containers.TUS
 def run(facts, rep, tier):
+    if tier == 'thorough':
+        containers.MODEL_BOUND.update(ring=8, sizes=5)          # deeper bounded decisions: every buffer state with capacity <= 8, sizes <= 5
+        rep.note('small-model bounds raised for the thorough tier: ring capacity <= 8, sizes <= 5')
     res = containers.ring_analyse(facts, rep)
     def add(rule, ok, inst, site, why='', key=None): res.setdefault(rule, []).append((bool(ok) if ok is not None else None, inst, site, why, key))
     n_it = containers.iterator_rules(containers.with_roles(facts, rep), add)
